@@ -250,8 +250,48 @@ func checkC06(c *Check) {
 				case strings.HasPrefix(maskVar, "item.tl2mask"):
 					c.Ob("json-struct/presence-bit-set-by-key", key, a.TL2Bit == maskVar+"|"+val, posStr(g.co.Fset, a.Node.Pos), fmt.Sprintf("writer emits the key under %s; the reader arm sets %s |= %s (found %q)", wg, maskVar, val, a.TL2Bit))
 				case strings.HasPrefix(maskVar, "item."):
-					want := "if " + setter + "\n  assign " + maskVar + " |= " + val + "\n"
-					c.Ob("json-struct/mask-bit-implied-by-field", key, strings.Contains(postTxt, want), posStr(g.co.Fset, a.Node.Pos), fmt.Sprintf("writer emits the key under %s; after the loop `if %s { %s |= %s }`", wg, setter, maskVar, val))
+					// the whole chain: the field's mask bit, and if that mask is itself a masked field, its bit in the
+					// outer mask, and so on (an external outer mask must have the bit set instead)
+					body := ""
+					for _, n := range post {
+						if in, isIf := n.(*IfN); isIf && in.Cond.String() == setter {
+							body += blockText(in.Then)
+						}
+					}
+					var missing []string
+					chain := []string{}
+					mv, bv := maskVar, bit
+					for depth := 0; depth < 6; depth++ {
+						bn, _ := strconv.Atoi(bv)
+						v := "#" + strconv.FormatUint(1<<uint(bn), 10)
+						if strings.HasPrefix(mv, "item.") {
+							chain = append(chain, mv+" |= "+v)
+							if !strings.Contains(body, "assign "+mv+" |= "+v+"\n") {
+								missing = append(missing, mv+" |= "+v)
+							}
+						} else if strings.HasPrefix(mv, "nat:") {
+							chain = append(chain, "error unless bit("+mv+","+bv+")")
+							if !tl2 && !strings.Contains(body, "if !bit("+mv+","+bv+")\n  call ErrorInvalidJSON") {
+								missing = append(missing, "error unless bit("+mv+","+bv+")")
+							}
+							break
+						} else {
+							break
+						}
+						// is this mask itself a masked field?
+						next := ""
+						for _, a2 := range arms {
+							if a2.Field == mv {
+								next = wguards[a2.Key]
+							}
+						}
+						m2 := bitCondRx.FindStringSubmatch(next)
+						if m2 == nil || strings.HasPrefix(m2[1], "item.tl2mask") {
+							break
+						}
+						mv, bv = m2[1], m2[2]
+					}
+					c.Ob("json-struct/mask-bit-implied-by-field", key, len(missing) == 0, posStr(g.co.Fset, a.Node.Pos), fmt.Sprintf("writer emits the key under %s; after the loop `if %s {…}` must set the whole mask chain %v; missing: %v", wg, setter, chain, missing))
 				case strings.HasPrefix(maskVar, "nat:") && !tl2:
 					want := "if " + setter + "\n  if !bit(" + maskVar + "," + bit + ")\n    call ErrorInvalidJSON"
 					c.Ob("json-struct/external-mask-bit-required", key, strings.Contains(postTxt, want), posStr(g.co.Fset, a.Node.Pos), fmt.Sprintf("field given while external mask %s bit %s is clear → error", maskVar, bit))
